@@ -91,6 +91,11 @@ def items(tier, seed):
     pairs = [[a, b] for a in vs for b in vs]
     for i in range(0, len(pairs), 27 if q else 40):
         out.append(dict(name=f"a2cloop-{i}", fam="a2cloop", seed=seed, tier=tier, pairs=pairs[i : i + (27 if q else 40)]))
+    # MR.Q creating its own replay buffer: the critic's n-step reward sequences come from the following steps of one episode
+    from vlib import mrq_windows
+
+    for it in mrq_windows.item_specs(tier, seed):
+        out.append(dict(it, fam="mrq-own-buffer", tier=tier))
     # reward-to-go (numpy, float64)
     for g in ([0.0, 0.5, 0.9, 1.0] if q else [0.0, 0.5, 0.9, 0.99, 1.0]):
         add("rtg", gamma=g, Lmax=5 if q else 6)
@@ -1164,6 +1169,10 @@ def work_a2cloop(item, col):
 def work(item, col):
     if item["fam"] == "a2cloop":
         return work_a2cloop(item, col)
+    if item["fam"] == "mrq-own-buffer":
+        from vlib import mrq_windows
+
+        return mrq_windows.work_item(item, col, lambda kind: SIG.format("mrq.train_mrq", kind))
     fam = FAMILIES[item["fam"]](item)
     fam.col = col
     if hasattr(fam, "setup"):
